@@ -50,6 +50,8 @@ CORPUS = [
     "hist 3 2 ; assign 0 0 E 1 3 0 3 ; assign 0 1 E 1 -1 0 1 ; assume 0 3 C le E 1 -1 1 -10 C le E 1 -1 0 -10 C le E 1 -1 0 -3 ; q_at 0 ; q_at 0",
     "hist 2 2 ; assume 0 2 C eq E 1 1000 1 1000 C lt E 1 1 1 0",
     "hist 2 3 ; assume 0 2 C lt E 1 1 0 0 C lt E 1 1 1 0 ; assume 0 1 C le E 3 -1 0 -1 1 2 2 0",
+    # term_domain exported `true` for a bottom value made by set_to_bottom()/normalize() (domall-11)
+    "hist 3 3 ; bot 0 ; q_csts 0 ; assume 1 1 C le E 1 1 0 10 ; assume 2 1 C le E 1 -1 0 0 ; meet 1 1 2 ; q_csts 1 ; normalize 1 ; q_csts 1",
     # lookahead widening on non-ascending arguments (made ascending for that domain)
     "hist 3 3 ; assume 2 1 C le E 1 1 2 -10 ; assume 1 3 C le E 1 1 2 -10 C le E 1 -1 0 -10 C le E 1 1 2 3 ; widen 0 2 1",
 ]
@@ -356,7 +358,7 @@ def lin_histories(seed, n):
 _LIN_CACHE = {}
 
 
-def lin_samples(line, nsamples=1500, span=45):
+def lin_samples(line, nsamples=450, span=45):
     """dense joint samples for a `lin` history: every variable is drawn from its box (the
     unary unit constraints of the history) cut to [-span, span]; for every other constraint
     points on and next to its boundary are added.  Returns the list, per operation, of the
@@ -394,7 +396,7 @@ def lin_samples(line, nsamples=1500, span=45):
             pts.add(tuple(rng.choice(corners[v]) for v in range(nv)))
         base = list(pts)
         for kind, (terms, c) in general:
-            for s in rng.sample(base, min(len(base), 250)):
+            for s in rng.sample(base, min(len(base), 120)):
                 a, v = rng.choice(terms)
                 rest = sum(x * s[w] for x, w in terms if w != v) + c
                 q = -rest // a
@@ -463,6 +465,8 @@ def oracle_ext(line, ans, rng=None, checks=("at", "leq", "entails", "csts", "bot
         return None
     ans = drop_ghost_csts(ans)
     w = domhist.oracle(line, ans, rng, checks)
+    if not w and "botcsts" in checks:
+        w = bottom_export(line, ans)
     if w or "leq" not in checks:
         return w
     ops = line.split(" ; ")
@@ -502,6 +506,33 @@ def drop_ghost_csts(ans):
             a = "{" + ",".join(c for c in a[1:-1].split(",") if "v?" not in c) + "}"
         out.append(a)
     return " ; ".join(out)
+
+
+def bottom_export(line, ans):
+    """a value that prints as bottom must export an unsatisfiable constraint system (a
+    constant constraint that is false), however the bottom was produced"""
+    ops = [o.split() for o in line.split(" ; ")][1:]
+    answers = ans.split(" ; ")
+    bot = {}
+    for i, o in enumerate(ops):
+        if i >= len(answers):
+            break
+        a = answers[i]
+        if o[0] == "q_csts":
+            if bot.get(o[1]) and a.startswith("{"):
+                false_found = False
+                for c in [x for x in a[1:-1].split(",") if x]:
+                    p = c.split(":")
+                    if len(p) == 3 and p[1] == "":
+                        k = int(p[2])
+                        if not {"eq": k == 0, "ne": k != 0, "le": k <= 0, "lt": k < 0}[p[0]]:
+                            false_found = True
+                if not false_found:
+                    return ("step %d (%s) of: %s: the value is bottom but the exported constraints %s differ from false"
+                            % (i + 1, " ".join(o), line, a))
+        elif not o[0].startswith("q_"):
+            bot[o[1]] = (a.strip() == "_|_")
+    return None
 
 
 def kind_of(w):
